@@ -89,14 +89,19 @@ def _quiet_identify_plain(path):
         return polyglot.identify_pytorch_file_format(path)
 
 
-def make_synthetic(path, subset, placement, junk, trailing):
+# "version set at 2 or higher" (README): records the documented rule accepts, in the spellings
+# torch itself reads (an integer, optional newline)
+VERSION_RECORDS = (b"3\n", b"2\n", b"10\n", b"12")
+
+
+def make_synthetic(path, subset, placement, junk, trailing, version=b"3\n"):
     buf = io.BytesIO()
     with zipfile.ZipFile(buf, "w") as z:
         prefix = {"dir": "archive/", "dotdir": ".ckpt/", "macdir": "__MACOSX_model/"}.get(placement, "")
         for m in MARKERS:
             if m in subset:
                 if m == "version":
-                    body = b"3\n"
+                    body = version
                 elif m.endswith(".pkl"):
                     body = pickle.dumps([1, 2, 3], protocol=2)
                 else:
@@ -152,7 +157,7 @@ def table_check(subset, formats):
     return None
 
 
-def check_identification(path, subset=None, junk=False):
+def check_identification(path, subset=None, junk=False, is_plain_tar=False):
     """determinism + read-only + (for zip-at-offset-0 synthetic files) the table"""
     d = os.path.dirname(path)
     sha0 = sha(path)
@@ -180,6 +185,19 @@ def check_identification(path, subset=None, junk=False):
         m = table_check(subset, f1)
         if m:
             return m
+    if is_plain_tar and "PyTorch v0.1.10" in f1:
+        # documented as "stacked pickle files". The pickle test is a loose heuristic by design, so
+        # this is asserted only for tar archives built here whose header is no pickle prefix: what
+        # their *members* contain says nothing about the file itself
+        import pickletools
+
+        with open(path, "rb") as f:
+            try:
+                for _ in pickletools.genops(f):
+                    pass
+            except Exception as e:  # noqa: BLE001
+                return (f"identified as {f1}, but 'PyTorch v0.1.10' is a file of stacked pickles and this file's bytes do "
+                        f"not begin with a pickle ({type(e).__name__}: {e})")
     return None
 
 
@@ -294,6 +312,21 @@ def make_real(kind, path, variant=0):
                 info = tarfile.TarInfo(name)
                 info.size = len(body)
                 t.addfile(info, io.BytesIO(body))
+    elif kind in ("tar_of_stacked", "legacy_tar_stacked"):
+        # a tar whose FIRST member's content is itself a stream of stacked pickles (a legacy
+        # checkpoint that was tarred up; a v0.1.1 layout whose sys_info holds several pickles)
+        inner = os.path.join(os.path.dirname(path), "inner.tmp")
+        torch.save(obj, inner, _use_new_zipfile_serialization=False)
+        with open(inner, "rb") as f:
+            stacked = f.read()
+        os.remove(inner)
+        names = ("checkpoint.pth", "notes.txt") if kind == "tar_of_stacked" else ("sys_info", "pickle", "storages", "tensors")
+        with tarfile.open(path, mode="w:") as t:
+            for i, name in enumerate(names):
+                body = stacked if i == 0 else pickle.dumps({"name": name, "v": variant})
+                info = tarfile.TarInfo(name)
+                info.size = len(body)
+                t.addfile(info, io.BytesIO(body))
     elif kind == "mar":
         with zipfile.ZipFile(path, "w") as z:
             z.writestr("MAR-INF/MANIFEST.json", b'{"model": {"modelName": "m"}}')
@@ -314,13 +347,16 @@ def make_real(kind, path, variant=0):
         raise ValueError(kind)
 
 
-REAL_KINDS = ("zip", "legacy", "jit", "legacy_tar", "mar", "random_zip", "pickle", "garbage", "empty")
+REAL_KINDS = ("zip", "legacy", "jit", "legacy_tar", "mar", "random_zip", "pickle", "garbage", "empty",
+              "tar_of_stacked", "legacy_tar_stacked")
 # rows of the documented table (README "PyTorch polyglots") that are not about zip members
+TAR_KINDS = ("legacy_tar", "tar_of_stacked", "legacy_tar_stacked")
 DOCUMENTED = {"legacy_tar": "PyTorch v0.1.1", "legacy": "PyTorch v0.1.10", "jit": "TorchScript v1.4",
-              "zip": "PyTorch v1.3"}  # fmt: skip
+              "zip": "PyTorch v1.3", "legacy_tar_stacked": "PyTorch v0.1.1"}  # fmt: skip
 DOCUMENTED_WHAT = {"legacy_tar": "tar file with sys_info, pickle, storages and tensors",
                    "legacy": "file of stacked pickles (torch.save, legacy serialisation)",
-                   "jit": "torch.jit.save archive", "zip": "torch.save archive"}  # fmt: skip
+                   "jit": "torch.jit.save archive", "zip": "torch.save archive",
+                   "legacy_tar_stacked": "tar file with sys_info, pickle, storages and tensors"}  # fmt: skip
 # formats each polyglot construction combines
 COMBINES = (
     ({"PyTorch model archive format", "PyTorch v0.1.10"}, None),
@@ -491,13 +527,14 @@ def _replay(case):
             return _flags_replay(scratch)
         if case["op"] == "synthetic":
             p = os.path.join(scratch.path, "syn.bin")
-            make_synthetic(p, case["subset"], case["placement"], case["junk"], case["trailing"])
+            make_synthetic(p, case["subset"], case["placement"], case["junk"], case["trailing"],
+                           case.get("version", "3\n").encode())
             m = check_identification(p, case["subset"], case["junk"])
             return Failure(case, f"synthetic zip {case}: {m}") if m else None
         if case["op"] == "real":
             p = os.path.join(scratch.path, ("real.bin", ".hidden.ckpt.pt", "__MACOSX.pt", "real.bin")[case.get("variant", 0) % 4])
             make_real(case["kind"], p, case.get("variant", 0))
-            m = check_identification(p)
+            m = check_identification(p, is_plain_tar=case["kind"] in TAR_KINDS)
             if m is None and torch_accepts(p) and "PyTorch v1.3" not in quiet_identify(p):
                 m = "torch.load accepts the file but 'PyTorch v1.3' is not reported"
             want = DOCUMENTED.get(case["kind"])
@@ -563,15 +600,19 @@ def _run_shard(spec, seed):
                 if i % spec["nparts"] != spec["part"]:
                     continue
                 p = os.path.join(scratch.path, "syn.bin")
-                make_synthetic(p, subset, placement, junk, trailing)
-                m = check_identification(p, subset, junk)
-                if m is None and not junk and torch_accepts(p) and "PyTorch v1.3" not in quiet_identify(p):
-                    m = "torch.load accepts the file but 'PyTorch v1.3' is not reported"
-                n += 1
-                case = {"op": "synthetic", "subset": list(subset), "placement": placement, "junk": junk,
-                        "trailing": trailing}  # fmt: skip
-                res.note(None, 2 <= len(subset) <= 4, klass=f"markers{len(subset)}", sample=case)
-                os.remove(p)
+                m = None
+                for version in (VERSION_RECORDS if "version" in subset else VERSION_RECORDS[:1]):
+                    make_synthetic(p, subset, placement, junk, trailing, version)
+                    m = check_identification(p, subset, junk)
+                    if m is None and not junk and torch_accepts(p) and "PyTorch v1.3" not in quiet_identify(p):
+                        m = "torch.load accepts the file but 'PyTorch v1.3' is not reported"
+                    n += 1
+                    case = {"op": "synthetic", "subset": list(subset), "placement": placement, "junk": junk,
+                            "trailing": trailing, "version": version.decode()}  # fmt: skip
+                    res.note(None, 2 <= len(subset) <= 4, klass=f"markers{len(subset)}", sample=case)
+                    os.remove(p)
+                    if m:
+                        break
                 if m:
                     res.failures.append(Failure(case, f"synthetic zip {case}: {m}"))
                     break
@@ -605,7 +646,7 @@ def _run_shard(spec, seed):
                 # torch names the archive's folder after the file: a dot-file gives a dot-folder
                 p = os.path.join(scratch.path, ("real.bin", ".hidden.ckpt.pt", "__MACOSX.pt", "real.bin")[variant % 4])
                 make_real(kind, p, variant)
-                m = check_identification(p)
+                m = check_identification(p, is_plain_tar=kind in TAR_KINDS)
                 acc = torch_accepts(p)
                 want = DOCUMENTED.get(kind)
                 if m is None and want and want not in quiet_identify(p):
